@@ -6,6 +6,11 @@ from .runner import Result
 NSHARDS = 32
 
 
+def tiny_grid(L):
+    from .history import tiny
+    return tiny(L)
+
+
 def near_grid(L):
     """time lattice 0..L plus near-tie companions (2^-30 next to the interior
     lattice points): spike times that are close to, but not equal to, each other
@@ -21,7 +26,7 @@ FAR_K = 1000             # clocks of far states are encoded as FAR_K + k
 def _regime_size(N, rg):
     if rg[0] == "far":
         return sum(lattice.count_states(N, k, None) for k in range(rg[-2], rg[-1] + 1))
-    if rg[0] == "near":
+    if rg[0] in ("near", "tiny"):
         return sum((1 << len(near_grid(L))) ** N for L in range(rg[-2], rg[-1] + 1))
     return sum(lattice.count_states(N, k, rg[1] if rg[0] == "bounded" else None)
                for k in range(rg[-2], rg[-1] + 1))
@@ -48,6 +53,9 @@ def iter_task_states(task):
     rg = task["regime"]
     if rg[0] == "near":
         return _iter_near(task["N"], rg[-2], rg[-1], task["shard"], task["nshards"])
+    if rg[0] == "tiny":
+        return ((k - 100, m) for k, m in _iter_near(task["N"], rg[-2], rg[-1], task["shard"],
+                                                    task["nshards"]))
     if rg[0] == "far":
         return ((FAR_K + k, m) for k, m in lattice.iter_states(task["N"], rg[-2], rg[-1], None,
                                                                task["shard"], task["nshards"]))
@@ -71,6 +79,9 @@ def _iter_near(N, Lmin, Lmax, shard, nshards):
 
 def trains_edges(k, masks):
     """explicit float trains and edges of a state (lattice or near-tie grid)"""
+    if k <= -100:
+        G = tiny_grid(-k - 100)
+        return [[G[i] for i in lattice.ticks(m)] for m in masks], [G[0], G[-1]]
     if k < 0:
         G = near_grid(-k)
         return [[G[i] for i in lattice.ticks(m)] for m in masks], [G[0], G[-1]]
@@ -138,8 +149,9 @@ def run_states(task, fn, prop, states=None):
         r.states += 1
         r.transitions += 1
         if lattice.nontrivial(masks):
-            r.sigs.add(lattice.signature(abs(k) * 3 if k < 0 else (k - FAR_K if k >= FAR_K else k),
-                                         masks))
+            kk = (-k - 100) * 3 if k <= -100 else (
+                -k * 3 if k < 0 else (k - FAR_K if k >= FAR_K else k))
+            r.sigs.add(lattice.signature(kk, masks))
         try:
             fn(r, k, masks, task)
         except Exception as e:
